@@ -199,7 +199,11 @@ impl SeqArrayExt for BytesViewArray {
         let Some(curr) = self.data.last_mut() else {
             fail!("push_seq_elements must be called after start_seq");
         };
-        *curr = bytes_view::pack_len(bytes_view::get_len(*curr) + n);
+        let len = bytes_view::get_len(*curr) + n;
+        if len > i32::MAX as usize {
+            fail!("BytesView overflow: the element length {len} exceeds i32::MAX");
+        }
+        *curr = bytes_view::pack_len(len);
         Ok(())
     }
 
@@ -219,6 +223,9 @@ impl SeqArrayExt for BytesViewArray {
             *curr = bytes_view::pack_inline(data);
             self.buffers[0].truncate(start);
         } else {
+            if start > i32::MAX as usize {
+                fail!("BytesView overflow: the buffer offset {start} exceeds i32::MAX");
+            }
             *curr = bytes_view::pack_extern(data, 0, start);
         }
         Ok(())
@@ -241,11 +248,17 @@ impl<'s> ScalarArrayExt<'s> for BytesViewArray {
     }
 
     fn push_scalar_value(&mut self, value: Self::Value) -> Result<()> {
+        if value.len() > 12 {
+            assert!(!self.buffers.is_empty());
+            let (len, offset) = (value.len(), self.buffers[0].len());
+            if len > i32::MAX as usize || offset > i32::MAX as usize {
+                fail!("BytesView overflow: the length {len} or the buffer offset {offset} exceeds i32::MAX");
+            }
+        }
         set_validity(self.validity.as_mut(), self.data.len(), true)?;
         if value.len() <= 12 {
             self.data.push(bytes_view::pack_inline(value));
         } else {
-            assert!(!self.buffers.is_empty());
             self.data
                 .push(bytes_view::pack_extern(value, 0, self.buffers[0].len()));
             self.buffers[0].extend(value);
